@@ -327,7 +327,10 @@ def run_parallel(cmds, timeout=900):
     def one(c):
         try:
             p = subprocess.run(c, capture_output=True, text=True, timeout=timeout, errors="replace")
-            return p.returncode, p.stdout + ("\n" + p.stderr[-3000:] if p.returncode not in (0, 1) else "")
+            # (stderr is wanted whenever the harness did not reach its SUMMARY line: an UndefinedBehaviorSanitizer
+            #  report aborts with exit code 1 and no output on stdout)
+            died = p.returncode not in (0, 1) or "SUMMARY" not in p.stdout
+            return p.returncode, p.stdout + ("\n" + p.stderr[-3000:] if died else "")
         except subprocess.TimeoutExpired as e:
             return -9, (e.stdout or b"").decode("utf-8", "replace") if isinstance(e.stdout, bytes) else (e.stdout or "")
     with ThreadPoolExecutor(max_workers=NCPU) as ex:
